@@ -93,10 +93,10 @@ func fixedGatePlans() []gatePlan {
 	cmd := func(a ...string) gateStep { return gateStep{Op: "cmd", Args: a} }
 	restart, rewrite := gateStep{Op: "restart"}, gateStep{Op: "rewrite"}
 	plans := []gatePlan{
-		{Steps: []gateStep{cmd("READONLY", "yes"), restart, cmd("READONLY", "no"), restart}},
-		{Steps: []gateStep{cmd("FOLLOW", "@leaderhost", "@leaderport"), restart, cmd("FOLLOW", "no", "one"), restart}},
-		{Steps: []gateStep{cmd("CONFIG", "SET", "requirepass", "cnrpw-g1"), rewrite, restart, cmd("READONLY", "yes"), restart, cmd("CONFIG", "SET", "requirepass", ""), rewrite, restart}},
-		{Steps: []gateStep{cmd("READONLY", "yes"), cmd("FOLLOW", "@leaderhost", "@leaderport"), restart, cmd("FOLLOW", "NO", "ONE"), restart}},
+		{Steps: []gateStep{cmd("READONLY", "yes"), restart, cmd("READONLY", "no")}},
+		{Steps: []gateStep{cmd("FOLLOW", "@leaderhost", "@leaderport"), restart, cmd("FOLLOW", "no", "one")}},
+		{Steps: []gateStep{cmd("CONFIG", "SET", "requirepass", "cnrpw-g1"), rewrite, restart, cmd("READONLY", "yes"), restart}},
+		{Steps: []gateStep{cmd("READONLY", "yes"), cmd("FOLLOW", "@leaderhost", "@leaderport"), restart, cmd("FOLLOW", "NO", "ONE")}},
 		{Steps: []gateStep{cmd("CONFIG", "SET", "REQUIREPASS", "cnrpw-g1"), cmd("config", "set", "RequirePass", "cnrpw-g2"), cmd("CONFIG", "SET", "requirepass", "cnrpw-g1"), cmd("Config", "Set", "Requirepass", "")}},
 	}
 	var spell gatePlan
